@@ -390,7 +390,10 @@ func New() core.Prop {
 func (*prop) ID() string { return "C10" }
 
 // Finish removes the private home directory.
-func (p *prop) Finish(*core.Session) {
+func (p *prop) Finish(s *core.Session) {
+	if s.Meta.Samples == nil {
+		s.Meta.Samples = []string{} // meta.json must not carry null (./check slices it)
+	}
 	for _, c := range p.cancels {
 		c()
 	}
